@@ -68,6 +68,7 @@ K0 ==
     gq     |-> [g \in Guards |-> {}], \* waiting lists: [p, pr, since]
     holder |-> [r \in 1..2 |-> 0],
     pheld  |-> [p \in PIDs |-> 0],
+    hl     |-> [p \in PIDs |-> <<>>], \* what p holds (resource r, GPOOL), most recently acquired first: the order in which an ending process drops it
     pinuse |-> 0,
     level  |-> 0,                      \* buffer
     oq     |-> <<>>,                   \* object queue content
@@ -235,18 +236,21 @@ CancelAwaiteds(S, q) ==
       S2 == SetK(S1, [S1.k EXCEPT !.awaits[q] = {}])
   IN CancelEvsOf(S2, q)
 
-(* cmi_process_drop_resources *)
+(* cmi_process_drop_resources: the process's list of holdings is pushed at the front, so the last thing acquired goes first *)
+NormH(kk) ==
+  [kk EXCEPT !.hl = [p \in PIDs |->
+     LET held == {r \in 1..NRes : kk.holder[r] = p} \cup (IF kk.pheld[p] > 0 THEN {GPOOL} ELSE {})
+         kept == SelectSeq(kk.hl[p], LAMBDA x : x \in held)
+         new == held \ {kept[i] : i \in 1..Len(kept)}
+     IN SetToSeq(new) \o kept]]
 RECURSIVE DropRes(_, _, _)
 DropRes(S, q, rs) ==
-  IF rs = {} THEN S
-  ELSE LET r == CHOOSE x \in rs : TRUE
-           S1 == Rec(SetK(S, [S.k EXCEPT !.holder[r] = 0]), r)
-       IN DropRes(GuardSignal(S1, r), q, rs \ {r})
-DropResources(S, q) ==
-  LET S1 == DropRes(S, q, {r \in 1..NRes : S.k.holder[r] = q}) IN
-  IF S1.k.pheld[q] > 0
-    THEN GuardSignal(Rec(SetK(S1, [S1.k EXCEPT !.pinuse = @ - S1.k.pheld[q], !.pheld[q] = 0]), GPOOL), GPOOL)
-    ELSE S1
+  IF rs = <<>> THEN S
+  ELSE LET r == Head(rs) IN
+       IF r = GPOOL
+         THEN DropRes(GuardSignal(Rec(SetK(S, [S.k EXCEPT !.pinuse = @ - S.k.pheld[q], !.pheld[q] = 0]), GPOOL), GPOOL), q, Tail(rs))
+         ELSE DropRes(GuardSignal(Rec(SetK(S, [S.k EXCEPT !.holder[r] = 0]), r), r), q, Tail(rs))
+DropResources(S, q) == DropRes(S, q, NormH(S.k).hl[q])
 
 (* wake_process_waiters: one wakeup event per waiter, in some order (lowest pid first as representative) *)
 RECURSIVE WakeWaiters(_, _, _, _)
@@ -622,7 +626,7 @@ Fold(m, evs) ==
 
 Apply(S) ==
   LET r == Fold(mon, S.ev) IN
-  /\ k' = S.k
+  /\ k' = NormH(S.k)
   /\ mon' = r.m
   /\ viol' = viol \cup r.bad
 
